@@ -124,7 +124,7 @@ _ALL = {
         technique="GCNF tables; loop-body obligations; path pairing rule",
     ),
     "C09": dict(
-        want=["K1@rolling", "K3@rolling", "K4@rolling", "K5", "D3", "P10", "P11b", "D3b", "W1", "W2"],
+        want=["K1@rolling", "K3@rolling", "K4@rolling", "K5", "D3", "P10", "P11b", "D3b", "W1", "W2", "W3"],
         explanation=("Decides the periphery of the rolling kernels, not the window arithmetic: null/mask guards (K1, K3); "
                      "counter width (K4); dtype provenance on selection paths so min/max/shift return input elements exactly "
                      "(K5); op -> kernel/flag dispatch and flag -> orientation (D3); restoration keeps the input's time unit (P10)."
@@ -134,12 +134,12 @@ _ALL = {
         technique="fact walker, path enumeration, dtype-provenance classification, dispatch folding",
     ),
     "C10": dict(
-        want=["K1@ema", "E1", "E2", "E3", "A2", "K3@ema", "M7", "E4"],
+        want=["K1@ema", "E1", "E2", "E3", "A2", "K3@ema", "M7", "E4", "E5"],
         explanation=("Decides the periphery of the EMA, not the closed form: null-key guard in the grouped kernels (K1); "
                      "invalid rows read the group's own carried value (E2); the halflife->alpha conversion is the same "
                      "function of the raw parameter in both entry points (E1); the alignment decorator names real "
                      "parameters (A2); masked rows (K3, with the documented exemption and known finding)."
-                     ' Also: the time-weighted kernel advances the clock exactly where it decays (E3, both directions); the alpha kernels multiply the running state by beta exactly once on every row path (E4); row-aligned inputs are re-ordered by one indexer (M7).'),
+                     ' Also: the time-weighted kernel advances the clock exactly where it decays (E3, both directions); the alpha kernels multiply the running state by beta exactly once on every row path (E4); row-aligned inputs are re-ordered by one indexer (M7); on every valid-row path of the four adjusted kernels out = (x + R)/(1 + W) followed by R += x and W += 1 (E5).'),
         not_decided=["the closed form, alpha/beta arithmetic, time decay, equality of grouped and ungrouped series"],
         technique="fact walker; expression normal-form comparison; decorator-name rule",
     ),
